@@ -2,7 +2,8 @@
 //   {"lines": [{"k": "src"|"srcw"|"blank"|"comment"|"define"|"undef"|"if"|"elif"|"else"|"endif"|"bad", "s", "e": [tok..], "v"}],
 //    "cli": [sym..], "err": bool, "sel": [line numbers], "warn": [line numbers], "second": [sym..]}
 // Rendering: row 1 = module line, row 2 = the deprecated helper, line n of the case = row n + 2.  A second file tests
-// that nothing leaks between files.  Three layout styles (plain; indented '#', "# if", trailing comments; tabs + CRLF).
+// that nothing leaks between files.  Five layout styles (plain; indented '#', "# if", trailing comments; tabs + CRLF; ...),
+// four spellings of the symbols (underscores, digits, mixed case) and files with / without a final line break.
 
 use crate::util::{hash_str, mismatch, strs};
 use crate::{Family, Outcome};
@@ -18,7 +19,8 @@ fn join_tokens(toks: &[String], tight: bool) -> String {
     for (i, t) in toks.iter().enumerate() {
         if i > 0 {
             let prev = &toks[i - 1];
-            let both_words = prev.chars().all(|c| c.is_ascii_alphanumeric()) && t.chars().all(|c| c.is_ascii_alphanumeric());
+            let word = |x: &str| x.chars().all(|c| c.is_ascii_alphanumeric() || c == '_');
+            let both_words = word(prev) && word(t);
             if both_words || !tight {
                 out.push(' ');
             }
@@ -54,8 +56,23 @@ const STYLES: [Style; 5] = [
     Style { indent: "", dir_indent: "      ", hash_gap: "", trailing: " //", eol: "\n", tight: true, blank: "" },
 ];
 
-/// Returns (text, per line: column where the probe / directive starts)
+/// How the model's symbols A, B, C are spelled: any identifier [a-zA-Z][_a-zA-Z0-9]* is a symbol.
+pub const SPELLINGS: [[&str; 3]; 4] = [["A", "B", "C"], ["A_1", "b2_", "C_c_C"], ["HAS_FEATURE", "x", "V2"], ["a", "aA", "a_"]];
+pub fn spell(sym: &str, which: usize) -> String {
+    match sym {
+        "A" => SPELLINGS[which % SPELLINGS.len()][0].to_owned(),
+        "B" => SPELLINGS[which % SPELLINGS.len()][1].to_owned(),
+        "C" => SPELLINGS[which % SPELLINGS.len()][2].to_owned(),
+        other => other.to_owned(),
+    }
+}
+
 pub fn render(lines: &[Value], style: &Style) -> String {
+    render_with(lines, style, 0, true)
+}
+
+/// `spelling`: which spelling of the symbols; `final_eol`: whether the last line is terminated
+pub fn render_with(lines: &[Value], style: &Style, spelling: usize, final_eol: bool) -> String {
     let mut out = String::new();
     out.push_str("module M");
     out.push_str(style.eol);
@@ -78,10 +95,10 @@ pub fn render(lines: &[Value], style: &Style) -> String {
             "srcw" => format!("{}struct P{} {{ x: Old }}", style.indent, n),
             "blank" => style.blank.to_string(),
             "comment" => format!("{}// just a comment", style.indent),
-            "define" => dir("define", l["s"].as_str().unwrap_or("A")),
-            "undef" => dir("undef", l["s"].as_str().unwrap_or("A")),
-            "if" => dir("if", &join_tokens(&strs(&l["e"]), style.tight)),
-            "elif" => dir("elif", &join_tokens(&strs(&l["e"]), style.tight)),
+            "define" => dir("define", &spell(l["s"].as_str().unwrap_or("A"), spelling)),
+            "undef" => dir("undef", &spell(l["s"].as_str().unwrap_or("A"), spelling)),
+            "if" => dir("if", &join_tokens(&strs(&l["e"]).iter().map(|t| spell(t, spelling)).collect::<Vec<_>>(), style.tight)),
+            "elif" => dir("elif", &join_tokens(&strs(&l["e"]).iter().map(|t| spell(t, spelling)).collect::<Vec<_>>(), style.tight)),
             "else" => dir("else", ""),
             "endif" => dir("endif", ""),
             "bad" => {
@@ -91,15 +108,20 @@ pub fn render(lines: &[Value], style: &Style) -> String {
             _ => String::new(),
         };
         out.push_str(&text);
-        out.push_str(style.eol);
+        if final_eol || i + 1 < lines.len() {
+            out.push_str(style.eol);
+        }
     }
     out
 }
 
-fn second_file(eol: &str) -> String {
+fn second_file(eol: &str, spelling: usize, final_eol: bool) -> String {
     let mut s = format!("module N{eol}");
     for sym in ["A", "B", "C"] {
-        s.push_str(&format!("#if {sym}{eol}struct Q{sym} {{}}{eol}#endif{eol}"));
+        s.push_str(&format!("#if {}{eol}struct Q{sym} {{}}{eol}#endif{eol}", spell(sym, spelling)));
+    }
+    if !final_eol {
+        s.truncate(s.len() - eol.len());
     }
     s
 }
@@ -107,17 +129,21 @@ fn second_file(eol: &str) -> String {
 impl Family for Preproc {
     fn run(&mut self, case: &Value) -> Outcome {
         let lines = case["lines"].as_array().cloned().unwrap_or_default();
-        let cli = strs(&case["cli"]);
-        let which = (hash_str(&case["lines"].to_string()) % STYLES.len() as u64) as usize;
+        let h = hash_str(&case["lines"].to_string());
+        let which = (h % STYLES.len() as u64) as usize;
         let style = &STYLES[which];
-        let text = render(&lines, style);
-        let second = second_file(style.eol);
+        // the spelling of the symbols and whether the files end in a line break are layout too
+        let spelling = ((h / 7) % SPELLINGS.len() as u64) as usize;
+        let final_eol = (h / 31) % 3 != 0;
+        let cli: Vec<String> = strs(&case["cli"]).iter().map(|s| spell(s, spelling)).collect();
+        let text = render_with(&lines, style, spelling, final_eol);
+        let second = second_file(style.eol, spelling, final_eol);
         let key = hash_str(&format!("{text}|{cli:?}"));
         let mut tags: Vec<String> = lines.iter().filter_map(|l| l["k"].as_str().map(|k| k.to_owned())).collect();
         tags.sort();
         tags.dedup();
         tags.push(if case["err"] == true { "ill-formed".into() } else { "well-formed".into() });
-        let rendered = json!({"file": text, "defines": cli, "style": which, "_tags": tags});
+        let rendered = json!({"file": text, "defines": cli, "style": which, "spelling": spelling, "final_eol": final_eol, "_tags": tags});
         let nontrivial = lines.iter().any(|l| matches!(l["k"].as_str(), Some("if") | Some("elif") | Some("else") | Some("bad") | Some("endif")));
 
         let options = SliceOptions { defined_symbols: cli.clone(), ..Default::default() };
